@@ -163,11 +163,11 @@ def run(tier, seed):
     exe = build_driver()
 
     # 1. the property on the reachable state graph of the bounded model
-    mc = consts(2, 0, [1, 5, 7] if q else range(0, 8), raw={"valid", "junk"})
+    mc = consts(2, 0, [5, 7] if q else range(0, 8), raw={"valid", "junk"}, acts=ACTS - {"raw"} if q else ACTS)
     cfg = vkit.write_cfg("C43_mc", mc, invariants=INVS, constraint="NoShare", view="StateView")
     res = vkit.tlc("Rpc", cfg, want_prints=False, coverage=True, workers=8, timeout=3000)
     chk.add_tlc("C43_mc", res)
-    chk.check_coverage(res, ["Init0", "CallOp", "Resume", "Adv", "Late", "Raw"], "C43_mc")
+    chk.check_coverage(res, ["Init0", "CallOp", "Resume", "Adv", "Late"] + ([] if q else ["Raw"]), "C43_mc")
     chk.cov["exhaustive"] = True
 
     gens = [
